@@ -88,7 +88,7 @@ impl PLoc {
     }
 }
 
-fn stmt_text(s: &Stmt) -> String {
+pub fn stmt_text(s: &Stmt) -> String {
     let mut toks = vec![s.op.mnemonic()];
     for r in &s.regs {
         toks.push(format!("r{}", r & 7));
